@@ -805,9 +805,24 @@ def subst_params(pats, callee_fn, call):
     return out
 
 
+def yields_nothing(fn):
+    """the method returns no value and never raises by itself: what it reads cannot flow into
+    the value (or the outcome) of its caller - only what it writes matters"""
+    if fn is None:
+        return False
+    for n in ast.walk(fn):
+        if isinstance(n, ast.Return) and n.value is not None and \
+                not (isinstance(n.value, ast.Constant) and n.value.value is None):
+            return False
+        if isinstance(n, (ast.Raise, ast.Assert, ast.Yield, ast.YieldFrom)):
+            return False
+    return True
+
+
 def closure(facts, fns):
     """close reads / writes / clears / slot_pops over calls; returns dicts"""
     names = list(facts)
+    silent = {m for m in names if yields_nothing(fns.get(m))}
     R = {m: set(facts[m].reads) for m in names}
     W = {m: set(facts[m].writes) for m in names}
     C = {m: set(facts[m].clears) for m in names}
@@ -819,6 +834,8 @@ def closure(facts, fns):
             for (c, _, call) in facts[m].calls:
                 if c in facts:
                     for A in (R, W):
+                        if A is R and c in silent:
+                            continue
                         add = subst_params(A[c], fns.get(c), call)
                         if not add <= A[m]:
                             A[m] |= add
@@ -1054,6 +1071,9 @@ def translate(repo):
     for names, W in writers:
         allfacts['@' + W.name] = W
     R, Wr, C, P = closure(allfacts, universe)
+    for m in facts:
+        if yields_nothing(universe.get(m)):
+            R[m] = set()                # no value: nothing to depend on
     # private helpers with parameter keys: their own entry uses the keys of their call sites
     for m in list(facts):
         if not m.startswith('_'):
@@ -1062,11 +1082,12 @@ def translate(repo):
             if not any(k is not None and k.startswith('?') for (_, k) in A[m]):
                 continue
             sites = [call for f in allfacts.values() for (c, _, call) in f.calls if c == m]
-            if sites and all(call is not None for call in sites):
-                new_set = set()
-                for call in sites:
-                    new_set |= subst_params(A[m], universe.get(m), call)
-                A[m] = new_set
+            if sites and all(call is not None for call in sites) and \
+                    all(k is not None for call in sites for (_, k) in subst_params(
+                        {p for p in A[m] if p[1] is not None and p[1].startswith('?')}, universe.get(m), call)):
+                # every call site names the key: the access is accounted for at the caller
+                # (its own entry lists the literal key), the helper's entry keeps the rest
+                A[m] = {p for p in A[m] if not (p[1] is not None and p[1].startswith('?'))}
     # the clear-everything idiom, closed over calls
     all_memo = {nm for nm, f in facts.items() if f.lru is not None}
     ca = {m for m in allfacts if getattr(allfacts[m], 'clears_all', False)}
